@@ -10,7 +10,7 @@ RULE = ("seeded valid schema x generated operations (string literals from every 
 
 def run(tier, seed):
     n = 2000 if tier == "thorough" else 220
-    return cw.run_shared(PROP, tier, seed, n, RULE, floors={"c02.documents_checked": 300, "c02.fragments_compared": 30, "c02.auto_typenames_removed": 50, "c02.nodes_compared": 2000}, case_hook=cw.with_mixins, dirty_sets=[[], ["dir.custom"], [], ["shape.iface_hierarchy"], ["frag.uses_variables", "dir.custom"], [], ["strlit.escape_n"], ["frag.many"], ["schema.extend"], ["frag.many", "frag.uses_variables"]])
+    return cw.run_shared(PROP, tier, seed, n, RULE, floors={"c02.documents_checked": 300, "c02.fragments_compared": 30, "c02.auto_typenames_removed": 50, "c02.nodes_compared": 2000}, case_hook=cw.with_mixins, dirty_sets=[[], ["dir.custom"], [], ["shape.iface_hierarchy"], ["frag.uses_variables", "dir.custom"], [], ["strlit.escape_n"], ["frag.many"], ["schema.extend"], ["frag.many", "frag.uses_variables"], ["frag.inline.on_same_abstract"]])
 
 
 def replay(data):
